@@ -1059,3 +1059,150 @@ Proof.
     destruct b; simpl in *; try discriminate; now injection H as <-.
   - intros b c Hne. rewrite C11_topic_type. now rewrite (tuple_hint_hetero b c Hne).
 Qed.
+
+(* ================================================================== *)
+(* I. bool(instance) plays no role: falsy owners (a class with __len__ *)
+(*    or __bool__) read and write their tunables like any other        *)
+(* ================================================================== *)
+
+(* __get__ on an instance: the result does not depend on the truthiness the
+   object has at that moment *)
+Lemma tunable_get_instance : forall w i t a,
+  tunable_get w (Some (i, t)) a = GResult (py_read w i a).
+Proof. reflexivity. Qed.
+
+Lemma tunable_get_class : forall w a, tunable_get w None a = GSelf.
+Proof. reflexivity. Qed.
+
+Lemma tunable_set_instance : forall w i t a v,
+  tunable_set w (i, t) a v = step w (PyWrite i a v).
+Proof. reflexivity. Qed.
+
+Lemma xstep_op : forall x o,
+  xstep x (XOp o) =
+  (mkx (fst (step (x_w x) o)) (x_truth x), XEv (snd (step (x_w x) o))).
+Proof.
+  intros [w tr] o. destruct o as [i cls p c|i a v|i a|k ty v|k].
+  - cbn [xstep x_w x_truth]. destruct (step w (Setup i cls p c)). reflexivity.
+  - cbn [xstep x_w x_truth]. unfold tunable_set, the_obj. cbn [fst x_truth].
+    destruct (step w (PyWrite i a v)). reflexivity.
+  - reflexivity.
+  - reflexivity.
+  - reflexivity.
+Qed.
+
+Lemma xstep_truth : forall x i t,
+  xstep x (XSetTruth i t) = (mkx (x_w x) ((i, t) :: x_truth x), XDone).
+Proof. reflexivity. Qed.
+
+Lemma xrun_cons : forall x o r,
+  xrun x (o :: r) =
+  (fst (xrun (fst (xstep x o)) r), snd (xstep x o) :: snd (xrun (fst (xstep x o)) r)).
+Proof.
+  intros. simpl. destruct (xstep x o) as [x1 e]. simpl. destruct (xrun x1 r). reflexivity.
+Qed.
+
+Lemma xrun_app : forall h1 h2 x,
+  xrun x (h1 ++ h2)%list =
+  (fst (xrun (fst (xrun x h1)) h2), (snd (xrun x h1) ++ snd (xrun (fst (xrun x h1)) h2))%list).
+Proof.
+  induction h1 as [|o h1 IH]; intros.
+  - simpl. now destruct (xrun x h2).
+  - rewrite <- app_comm_cons. rewrite !xrun_cons. rewrite IH. reflexivity.
+Qed.
+
+Lemma xrun_length : forall h x, length (snd (xrun x h)) = length h.
+Proof.
+  induction h; intros; [reflexivity|]. rewrite xrun_cons. simpl. now rewrite IHh.
+Qed.
+
+(* Every history with truthiness changes behaves, operation by operation, as
+   the same history on ordinary always-true objects: same NetworkTables
+   contents, same bindings, same events; no read hands back the descriptor. *)
+Theorem xrun_erase : forall h x,
+  x_w (fst (xrun x h)) = fst (run (x_w x) (erase h)) /\
+  xevents (snd (xrun x h)) = map Some (snd (run (x_w x) (erase h))).
+Proof.
+  induction h as [|o h IH]; intros x; [split; reflexivity|].
+  rewrite xrun_cons. destruct o as [o|i t].
+  - rewrite xstep_op. cbn [fst snd erase xevents]. rewrite run_cons. cbn [fst snd map].
+    destruct (IH (mkx (fst (step (x_w x) o)) (x_truth x))) as [H1 H2].
+    cbn [x_w] in H1, H2. split; [exact H1 | now rewrite H2].
+  - rewrite xstep_truth. cbn [fst snd erase xevents].
+    destruct (IH (mkx (x_w x) ((i, t) :: x_truth x))) as [H1 H2].
+    cbn [x_w] in H1, H2. split; assumption.
+Qed.
+
+(* in particular two runs of one history that differ only in how (and when)
+   bool() of the owners comes out emit the same events *)
+Theorem truth_irrelevant : forall h1 h2 x1 x2,
+  x_w x1 = x_w x2 -> erase h1 = erase h2 ->
+  xevents (snd (xrun x1 h1)) = xevents (snd (xrun x2 h2)) /\
+  x_w (fst (xrun x1 h1)) = x_w (fst (xrun x2 h2)).
+Proof.
+  intros h1 h2 x1 x2 Hw Hh.
+  destruct (xrun_erase h1 x1) as [A1 A2], (xrun_erase h2 x2) as [B1 B2].
+  rewrite A1, A2, B1, B2, Hw, Hh. split; reflexivity.
+Qed.
+
+(* an attribute read on an instance never returns the tunable object *)
+Theorem read_never_self : forall h x, ~ In XSelf (snd (xrun x h)).
+Proof.
+  induction h as [|o h IH]; intros x; [intros []|].
+  rewrite xrun_cons. cbn [snd]. intros [H|H]; [|exact (IH _ H)].
+  destruct o as [o|i t]; [rewrite xstep_op in H | rewrite xstep_truth in H]; discriminate H.
+Qed.
+
+(* C09's read clause with the owner's truthiness in the picture: after ANY
+   interleaving of attribute writes/reads, NT-side writes/reads and changes of
+   the owners' truthiness, reading i.a -- whatever bool(i) is at that moment
+   ([t] arbitrary, in particular TLen 0 and TBool false) -- gives the most
+   recent write to its key *)
+Theorem read_latest_any_truth : forall x h i t b a k ty d,
+  no_setup (erase h) = true ->
+  inst_get (w_inst (x_w x)) i = Some b -> bind_get b a = Some (k, ty, d) ->
+  tunable_get (x_w (fst (xrun x h))) (Some (i, t)) a =
+  GResult (match last_write (x_w x) (erase h) k with
+           | Some v => EvVal v
+           | None => py_read (x_w x) i a
+           end).
+Proof.
+  intros x h i t b a k ty d Hh Hi Ha. rewrite tunable_get_instance.
+  destruct (xrun_erase h x) as [-> _]. f_equal. eapply read_latest; eassumption.
+Qed.
+
+(* the event a read emits in the middle of such a history *)
+Theorem read_latest_event_any_truth : forall x h1 h2 i b a k ty d,
+  no_setup (erase h1) = true ->
+  inst_get (w_inst (x_w x)) i = Some b -> bind_get b a = Some (k, ty, d) ->
+  nth (length h1) (snd (xrun x (h1 ++ XOp (PyRead i a) :: h2)%list)) XDone =
+  XEv (match last_write (x_w x) (erase h1) k with
+       | Some v => EvVal v
+       | None => py_read (x_w x) i a
+       end).
+Proof.
+  intros. rewrite xrun_app. cbn [snd].
+  rewrite app_nth2; rewrite xrun_length; [|lia]. rewrite Nat.sub_diag.
+  rewrite xrun_cons. cbn [snd nth]. rewrite xstep_op. cbn [snd step].
+  destruct (xrun_erase h1 x) as [-> _]. f_equal. eapply read_latest; eassumption.
+Qed.
+
+(* attribute assignment on a (possibly falsy) owner lands in its topic *)
+Theorem write_reaches_topic_any_truth : forall w i t b a k ty d v,
+  inst_get (w_inst w) i = Some b -> bind_get b a = Some (k, ty, d) ->
+  nt_get (w_nt (fst (tunable_set w (i, t) a v))) k = Some (ty, canon v).
+Proof.
+  intros. rewrite tunable_set_instance. eapply bound_write_reaches_topic; eassumption.
+Qed.
+
+(* changing an owner's truthiness changes nothing else *)
+Theorem set_truth_changes_nothing : forall x i t,
+  x_w (fst (xstep x (XSetTruth i t))) = x_w x /\
+  truth_get (x_truth (fst (xstep x (XSetTruth i t)))) i = t /\
+  forall j, j <> i ->
+    truth_get (x_truth (fst (xstep x (XSetTruth i t)))) j = truth_get (x_truth x) j.
+Proof.
+  intros. rewrite xstep_truth. cbn [fst x_w x_truth truth_get].
+  split; [reflexivity|]. split; [now rewrite Nat.eqb_refl|].
+  intros j Hj. destruct (Nat.eqb i j) eqn:E; [apply Nat.eqb_eq in E; congruence | reflexivity].
+Qed.
